@@ -178,10 +178,16 @@ def add_any_token_except(rng, cfg, prods):
     have = {a[0] for a in prods[sym] if len(a) == 1}
     excluded = sorted(set(rng.sample(cfg.terminals, rng.randint(0, len(cfg.terminals) - 1))) | (have & set(cfg.terminals)))
     added = [(t,) for t in cfg.terminals if t not in excluded]
+    also = None
+    if len(added) >= 2 and rng.random() < 0.4:
+        # the helper object is of a class of the application that overrides the documented expansion method: one
+        # more token is left out
+        also = added[rng.randrange(len(added))][0]
+        added = [a for a in added if a[0] != also]
     if not added:
         return None
     prods[sym] = list(prods[sym]) + added
-    return [sym, excluded]
+    return [sym, excluded] + ([also] if also is not None else [])
 
 
 def ctor_productions(cfg, prods, any_spec):
@@ -195,17 +201,30 @@ def ctor_productions(cfg, prods, any_spec):
             out[sym] = llmon.VfAlternatives(prods[sym])
             return out
         return prods
-    sym, excluded = any_spec
-    n_added = len([t for t in cfg.terminals if t not in excluded])
+    sym, excluded = any_spec[:2]
+    also = any_spec[2] if len(any_spec) > 2 else None
+    n_added = len([t for t in cfg.terminals if t not in excluded and t != also])
     out = {k: list(v) for k, v in prods.items()}
     # (such a helper object is typically a module-level constant of the caller: one object per exclusion
     # list serves every grammar and every tokenizer of this process)
-    helper = _ANY_EXCEPT.setdefault(tuple(excluded), llparser.AnyTokenExcept(*excluded))
+    helper = _ANY_EXCEPT.setdefault((also,) + tuple(excluded), llparser.AnyTokenExcept(*excluded) if also is None
+                                    else AnyTokenButOneMore(also, *excluded))
     out[sym] = out[sym][:len(out[sym]) - n_added] + [helper]
     return out
 
 
 _ANY_EXCEPT = {}
+
+
+class AnyTokenButOneMore(llparser.AnyTokenExcept):
+    """the application's own flavour of the helper: its expansion leaves out one more token"""
+
+    def __init__(self, also, *tokens):
+        super().__init__(*tokens)
+        self.vf_also = also
+
+    def get_tokens(self, *args, **kwargs):
+        return [t for t in super().get_tokens(*args, **kwargs) if t != self.vf_also]
 
 
 def run_case(ctx, mon, cfg_id, terms, prods, inputs_spec=None, rng=None, any_spec=None):
